@@ -826,7 +826,7 @@ func runCheck(prop, tier string, opt options) int {
 		}
 	}
 	sort.Strings(stubsUsed)
-	var knownList []string
+	knownList := []string{}
 	for k := range knownSeen {
 		knownList = append(knownList, k)
 	}
